@@ -44,8 +44,8 @@ def setup_upload_placement(u):
     it = u.it
     fn = find_fn(it, "upload")
     rel_assigns = assigned_expr(fn, "relative")
-    if len(rel_assigns) != 2:
-        raise Unsupported("Client.upload: expected two assignments to `relative` in the directory walk")
+    if len(rel_assigns) not in (1, 2):
+        raise Unsupported("Client.upload: expected one or two assignments to `relative` in the directory walk")
     write_into = u.choose(2, "write_into") == 1
     source = mk_path(u, "source", "/")
     u.assume(z3.Length(source.parts) >= 1)
@@ -63,9 +63,9 @@ def setup_upload_placement(u):
     if not write_into:
         env.vars["destination"] = it.eval(dest_assigns[0].value, env)
     D = env.vars["destination"]
-    node = rel_assigns[0] if write_into else rel_assigns[1]
+    node = rel_assigns[0] if (write_into or len(rel_assigns) == 1) else rel_assigns[1]
     # which assignment belongs to which branch is read from the enclosing `if write_into:`
-    for n in ast.walk(fn):
+    for n in ast.walk(fn) if len(rel_assigns) == 2 else []:
         if isinstance(n, ast.If) and isinstance(n.test, ast.Name) and n.test.id == "write_into" and any(a in ast.walk(n) for a in rel_assigns):
             node = [a for a in rel_assigns if a in n.body][0] if write_into else [a for a in rel_assigns if a in n.orelse][0]
 
